@@ -23,7 +23,13 @@
      fast_slow_decode_equal_partial
                                 the two modes of the decoder model (Msg/MsgDec.v: [slow = true]
                                 proto.unmarshalMessageSlow, [slow = false] internal/impl) give the
-                                same verdict (same error class) on EVERY byte string, and when they
+                                same verdict on EVERY byte string -- the same error class, except
+                                that the reflection path may report the recursion limit where the
+                                table-driven path reports a parse error (an end-group tag carrying
+                                the number of a map field when no depth is left for a map entry:
+                                the reflection path notices an end-group tag only in
+                                ConsumeFieldValue, after the map field's depth check; restated
+                                after WP-B refined the decoder model) --, and when they
                                 accept, the reflection result with its unknown-field tags
                                 normalised IS the table-driven result -- by a simulation along the
                                 decoder's recursion (Msg/FastSlowDecP.v).  _partial: for schema
@@ -91,7 +97,7 @@ Theorem C08_fast_slow_decode_equal_partial :
     fsd_schema_ok S ->
     match msg_decode true S limit tid bs, msg_decode false S limit tid bs with
     | DOk v_slow, DOk v_fast => fsm_normalize v_slow = v_fast
-    | DErr e_slow, DErr e_fast => e_slow = e_fast
+    | DErr e_slow, DErr e_fast => e_slow = e_fast \/ (e_slow = DDepth /\ e_fast = DParse)
     | _, _ => False
     end.
 Proof. exact fsd_decode_equal. Qed.
